@@ -195,6 +195,7 @@ big_binop!(Add, add, AddSpecImpl, obeys_add_spec, add_req, add_spec, &'a BigInt,
 big_binop!(Add, add, AddSpecImpl, obeys_add_spec, add_req, add_spec, &'a BigInt, &'a BigInt, |a, b| true, a.v.view() + b.v.view());
 // Sub
 big_binop!(Sub, sub, SubSpecImpl, obeys_sub_spec, sub_req, sub_spec, BigInt, &'a i64, |a, b| true, a.v.view() - *b);
+big_binop!(Sub, sub, SubSpecImpl, obeys_sub_spec, sub_req, sub_spec, BigInt, &'a BigInt, |a, b| true, a.v.view() - b.v.view());
 big_binop!(Sub, sub, SubSpecImpl, obeys_sub_spec, sub_req, sub_spec, &'a BigInt, &'a i64, |a, b| true, a.v.view() - *b);
 big_binop!(Sub, sub, SubSpecImpl, obeys_sub_spec, sub_req, sub_spec, &'a BigInt, &'a BigInt, |a, b| true, a.v.view() - b.v.view());
 // Mul
@@ -309,8 +310,8 @@ impl<'a> MulAssign<&'a BigInt> for BigInt {
 }
 impl<'a> MulAssignSpecImpl<&'a BigInt> for BigInt {
     open spec fn obeys_mul_assign_spec() -> bool { true }
-    open spec fn mul_assign_req(self, rhs: &'a BigInt) -> bool { true }
-    open spec fn mul_assign_spec(self, rhs: &'a BigInt) -> BigInt { big(smul(self.v@, rhs.v@)) }
+    open spec fn mul_assign_req(&self, rhs: &'a BigInt) -> bool { true }
+    open spec fn mul_assign_spec(&self, rhs: &'a BigInt) -> &BigInt { &big(smul(self.v@, rhs.v@)) }
 }
 
 
@@ -409,7 +410,9 @@ lazy_binop_contract!(MulSpecImpl, obeys_mul_spec, mul_req, mul_spec, &'a LazyBig
 // postcondition is the truncated remainder, the caller-established precondition is rhs != 0
 lazy_binop_contract!(RemSpecImpl, obeys_rem_spec, rem_req, rem_spec, LazyBigint, LazyBigint, |a, b| b.val() != 0, trem(a.val(), b.val()));
 lazy_binop_contract!(RemSpecImpl, obeys_rem_spec, rem_req, rem_spec, &'a LazyBigint, &'a LazyBigint, |a, b| b.val() != 0, trem(a.val(), b.val()));
-lazy_binop_contract!(DivSpecImpl, obeys_div_spec, div_req, div_spec, LazyBigint, LazyBigint, |a, b| b.val() != 0, tdiv(a.val(), b.val()));
+// `/` has two call sites (binom, multinom in builtin/int.rs), both with a divisor that is a product of
+// positive factors: the precondition is taken from them
+lazy_binop_contract!(DivSpecImpl, obeys_div_spec, div_req, div_spec, LazyBigint, LazyBigint, |a, b| b.val() > 0, tdiv(a.val(), b.val()));
 lazy_binop_contract!(BitAndSpecImpl, obeys_bitand_spec, bitand_req, bitand_spec, LazyBigint, LazyBigint, |a, b| true, iand(a.val(), b.val()));
 lazy_binop_contract!(BitOrSpecImpl, obeys_bitor_spec, bitor_req, bitor_spec, LazyBigint, LazyBigint, |a, b| true, ior(a.val(), b.val()));
 lazy_binop_contract!(BitXorSpecImpl, obeys_bitxor_spec, bitxor_req, bitxor_spec, LazyBigint, LazyBigint, |a, b| true, ixor(a.val(), b.val()));
